@@ -89,46 +89,56 @@ type Factory struct {
 	Acceptors []*Acceptor
 	Connected []*Transport
 	NewT      func() *Transport
-	// gates: Listen for a gated URL parks (after "binding", before returning the acceptor) until OpenGate
-	gates  map[string]chan struct{}
-	parked map[string]bool
+	// gates: a Listen for a gated URL parks (after "binding", before returning the acceptor) until OpenGate.
+	// One entry per Gate call; a URL may be gated several times (address reused by a later listener).
+	pending map[string]int             // gates set and not yet reached by a Listen
+	parked  map[string][]chan struct{} // Listen calls waiting
 }
 
 // Gate makes the next Listen for url park until OpenGate(url).
 func (f *Factory) Gate(url string) {
 	f.mu.Lock()
 	defer f.mu.Unlock()
-	if f.gates == nil {
-		f.gates, f.parked = map[string]chan struct{}{}, map[string]bool{}
+	if f.pending == nil {
+		f.pending, f.parked = map[string]int{}, map[string][]chan struct{}{}
 	}
-	f.gates[url] = make(chan struct{})
+	f.pending[url]++
 }
 
-// OpenGate lets a parked Listen continue; it reports whether a gate existed.
+// OpenGate lets every Listen parked for url continue and drops gates not reached yet; it reports whether there was any.
 func (f *Factory) OpenGate(url string) bool {
 	f.mu.Lock()
-	g, ok := f.gates[url]
-	parked := f.parked[url]
-	delete(f.gates, url)
+	waiting := f.parked[url]
+	had := len(waiting) > 0 || f.pending[url] > 0
 	delete(f.parked, url)
+	delete(f.pending, url)
 	f.mu.Unlock()
-	if !ok {
-		return false
+	for _, g := range waiting {
+		if f.Tracker != nil {
+			f.Tracker.Begin()
+		}
+		close(g)
 	}
-	if parked && f.Tracker != nil {
-		f.Tracker.Begin()
-	}
-	close(g)
-	return true
+	return had
 }
 
-// GatedURLs lists the URLs that still have a gate.
+// GatedURLs lists the URLs that still have a gate (set or with a parked Listen).
 func (f *Factory) GatedURLs() []string {
 	f.mu.Lock()
 	defer f.mu.Unlock()
+	seen := map[string]bool{}
 	var out []string
-	for u := range f.gates {
-		out = append(out, u)
+	for u, n := range f.pending {
+		if n > 0 && !seen[u] {
+			seen[u] = true
+			out = append(out, u)
+		}
+	}
+	for u, w := range f.parked {
+		if len(w) > 0 && !seen[u] {
+			seen[u] = true
+			out = append(out, u)
+		}
 	}
 	return out
 }
@@ -149,9 +159,12 @@ func (f *Factory) Listen(options *transport.Options) (transport.Acceptor, error)
 	f.mu.Lock()
 	f.Acceptors = append(f.Acceptors, a)
 	key := options.Address.Scheme + "://" + options.Address.Host
-	g, gated := f.gates[key]
+	var g chan struct{}
+	gated := f.pending[key] > 0
 	if gated {
-		f.parked[key] = true
+		f.pending[key]--
+		g = make(chan struct{})
+		f.parked[key] = append(f.parked[key], g)
 	}
 	f.mu.Unlock()
 	if gated {
